@@ -821,7 +821,7 @@ PARTIAL = [
     "node bookkeeping), it preserves the representation invariant, the final three-taxon step is exact, and "
     "nj_consistency_partial: a run that joins a cherry at every step returns a tree listing every pair of tips at exactly "
     "the input distance.  That real runs do join cherries is TESTED exhaustively over all labelled topologies up to the tier's size",
-    "the duplicate shortcut of _PairwiseDistance.run: refuted for the pinned text (duplicate_shortcut_exact_refuted), proved exact "
+    "the duplicate shortcut of _PairwiseDistance.run: refuted for the pinned text (prefix_duplicate_shortcut_refuted), proved exact "
     "for the fixed text (fixed_duplicate_rule_exact); which of the two texts the source contains is read from the source "
     "(fail-closed text comparison), not proved",
     "the published formulas themselves: the model transcribes the code's formula; equality with the literature's formula is "
